@@ -6,6 +6,25 @@ from .. import ast as A
 UTILS = "impl/src/utils.rs"
 
 
+def _pat_alternatives(p):
+    """rendered alternatives of a pattern, or-patterns expanded also inside tuples: `(None | Some("not"), "x")` ->
+    [`(None,"x")`, `(Some("not"),"x")`]"""
+    k = A.kind(p)
+    if k == "Pat::Or":
+        out = []
+        for c in p["cases"]:
+            out += _pat_alternatives(c)
+        return out
+    if k == "Pat::Paren":
+        return _pat_alternatives(p["pat"])
+    if k == "Pat::Tuple":
+        alts = [[]]
+        for e in p["elems"]:
+            alts = [a + [x] for a in alts for x in _pat_alternatives(e)]
+        return ["(" + ",".join(a) + ")" for a in alts]
+    return [A.render_pat(p)]
+
+
 def rule_legacy_attr_parser(ctx):
     """ATTR-LEGACY: the untyped attribute parser (`get_meta_info` / `parse_punctuated_nested_meta`, used by 16 derives) rejects: an attribute where none is allowed, a second attribute of the same name *before* any successful return, an empty attribute unless `ignore` is allowed, name-value syntax, parameters outside the allow-list, and parameter names it has no meaning for (both matches on `(wrapper, name)` end in a rejecting arm); nested `not(..)` is bounded."""
     fn = A.get_fn(ctx.files, UTILS, "get_meta_info")
@@ -65,7 +84,7 @@ def rule_legacy_attr_parser(ctx):
                 mm = re.fullmatch(r"\{if info\.(\w+)==Some\((?:true|false)\)\{return Err\([^;]*\)\};info\.\1=Some\((true|false)\)\}", b)
                 guarded = bool(mm)
             if mm:
-                for p in A.render_pat(arm["pat"]).split("|"):
+                for p in _pat_alternatives(arm["pat"]):
                     slots.setdefault(mm.group(1), []).append((p, mm.group(2), guarded))
     ctx.instance("nested:not-depth")
     if A.wsearch(t, 'polyfill::Meta::List(list) if list.path.is_ident("not")=>{if wrapper_name.is_some(){return Err(') is None:
@@ -86,6 +105,21 @@ def rule_legacy_attr_parser(ctx):
                 val = out[1]
                 res.append((env_.get(sl) != O.NONE, val == ("Err",) or (isinstance(val, tuple) and val[:1] == ("Err",))))
             set_once_ok = res == [(True, False), (True, True)]
+    # polarity and slot of every parameter: `name` switches its own flag on, `not(name)` switches it off
+    # (`ignore` is the one negative word: it switches `enabled` off)
+    for slot, writes in sorted(slots.items()):
+        for p, v, _g in writes:
+            mp = re.fullmatch(r'\((None|Some\("not"\)),"(\w+)"\)', p)
+            if not mp:
+                continue
+            neg, name = mp.group(1) != "None", mp.group(2)
+            ctx.instance(f"polarity:{p}", sample={"pattern": p, "slot": slot, "value": v})
+            want_slot = {"ignore": "enabled", "skip": "enabled"}.get(name, name)
+            want_val = (name not in ("ignore", "skip")) != neg
+            if slot.rstrip("_") != want_slot.rstrip("_"):
+                ctx.report(f"legacy:slot-of:{p}", w, f"the parameter {p} writes `info.{slot}`, not the flag of its own name: `#[attr({name})]` configures something else than documented", {})
+            elif (v == "true") != want_val:
+                ctx.report(f"legacy:polarity:{p}", w, f"the parameter {p} sets `info.{slot}` to {v}: `{'not(' + name + ')' if neg else name}` must switch the flag {'off' if neg else 'on'} (e.g. `#[mul(not(forward))]` would forward, `#[error(not(source))]` would select the field)", {})
     for slot, writes in sorted(slots.items()):
         unguarded = [(p, v) for p, v, g in writes if not g or (g and not set_once_ok and "set_once" in t)]
         ctx.instance(f"slot:{slot}", sample={"slot": slot, "writes": [(p, v) for p, v, _ in writes], "unguarded": len(unguarded)})
